@@ -1,0 +1,6 @@
+//go:build !verif
+
+package memory
+
+// verifGate is a no-op unless the package is built with the `verif` tag (conformance harness hooks).
+func verifGate(string) {}
